@@ -46,7 +46,7 @@ def run(facts, res):
             res.instance("T1", "reload_until: every parent of an applied block is enqueued (status %s, after successful apply %s, whole set %s)" % (st, applied, not partial), b.loc(t.line))
             if not ok:
                 res.violation("T1", "reload_until|parents-not-enqueued", "reload_until does not enqueue every parent of each successfully applied block", b.loc(t.line))
-        elif any(x[0] == "param" and x[2] == "anchors" for x in walk(v)):
+        elif any(x[0] == "param" and x[1] == 2 for x in walk(v)):
             ok = not partial and whole_iteration(b, v)
             seen_heads = seen_heads or ok
             res.instance("T1", "reload_until: every requested head is enqueued: %s" % ok, b.loc(t.line))
@@ -56,10 +56,14 @@ def run(facts, res):
         res.violation("T1", "reload_until|worklist-shape", "reload_until: enqueueing of parents (%s) / heads (%s) not found" % (seen_parent, seen_heads), b.loc())
     # loop until empty: the loop condition is `!to_apply.is_empty()`, elements leave by pop_front only
     pops = [bi for bi, t in b.calls() if t.callee is not None and t.callee.name in ("pop_front", "pop_back", "pop")]
+    worklist_vars = set()
+    for _, t in pushes:
+        inner = arg_term(b, t, 0, 6)
+        worklist_vars |= {x[1] for x in walk(inner) if x[0] == "var"}
     cond_ok = False
     for bi in pops:
         for l in lits_of(b, bi, facts):
-            if l.kind == "call" and callee_name(l.term) == "is_empty" and l.truth is False and any(x[0] == "var" and x[2] == "to_apply" for x in walk(l.term[2][0])):
+            if l.kind == "call" and callee_name(l.term) == "is_empty" and l.truth is False and ({x[1] for x in walk(l.term[2][0]) if x[0] == "var"} & worklist_vars):
                 cond_ok = True
     applies = [(bi, t) for bi, t in b.calls() if t.callee is not None and t.callee.name == "apply_delta"]
     other_exits = []
@@ -84,7 +88,7 @@ def run(facts, res):
     for e, l in edges:
         if l.kind == "variant" and l.variants == {"Some"}:
             pt = peel(l.term)
-            if pt[0] == "call" and callee_name(pt) == "next" and any(x[0] == "param" and x[2] == "anchors" for x in walk(pt)):
+            if pt[0] == "call" and callee_name(pt) == "next" and any(x[0] == "param" and x[1] == 2 for x in walk(pt)):
                 # the validation loop is the first loop over anchors (it contains no push_back)
                 body_blocks = cfg.reachable_blocks(e, avoid={pt[3]})
                 if not any(pb in body_blocks for pb, _ in pushes):
@@ -132,7 +136,7 @@ def run(facts, res):
     for s in cg.sites[b.path]:
         if s.callee is not None and s.callee.target() == "melda::Melda::reload":
             for l in lits_of(b, s.block, facts):
-                if l.kind == "call" and callee_name(l.term) == "is_empty" and l.truth is True and any(x[0] == "param" and x[2] == "anchors" for x in walk(l.term[2][0])):
+                if l.kind == "call" and callee_name(l.term) == "is_empty" and l.truth is True and any(x[0] == "param" and x[1] == 2 for x in walk(l.term[2][0])):
                     deleg = s.term.dest is not None and s.term.dest.local == 0
     res.instance("T3", "reload_until(empty set) returns reload(): %s" % deleg, b.loc())
     if not deleg:
